@@ -228,6 +228,9 @@ def c_printf(fmt, args):
     return bytes(out)
 
 
+_ENUM_CACHE = {}
+
+
 class PEval:
     def __init__(self, units, max_depth=6, max_iter=4096):
         self.ordering = {}
@@ -236,6 +239,10 @@ class PEval:
         self.max_iter = max_iter
         self.enums = {}
         for u in self.units:
+            if id(u) in _ENUM_CACHE:
+                self.enums.update(_ENUM_CACHE[id(u)])
+                continue
+            mine = _ENUM_CACHE.setdefault(id(u), {})
             for r in u.roots:
                 for e in walk(r):
                     if e.get('kind') == 'EnumDecl':
@@ -253,6 +260,7 @@ class PEval:
                                 if v is None:
                                     v = nxt
                                 self.enums[c['id']] = v
+                                mine[c['id']] = v
                                 nxt = v + 1
 
     # ------------------------------------------------------------------ helpers
